@@ -35,7 +35,8 @@ func runC03(c *Ctx, r *Report) {
 	c01R7(c, r, "C03.R17")                // every byte from the first unconsumed one reaches the upstreams: handlers in front of the proxy hand on what they have buffered
 	c01R1(c, r, "C03.R18")                // "from its first unconsumed byte": every matcher of a set is rewound before the next one freezes the cursor (a deferred rewind leaves the bytes a non-last matcher read out of the relayed stream)
 	c17ReadAs(c, r, "C03.R19", "C03.R20") // a throttle in front of the proxy: a batch larger than a limiter's burst fails the wait, the pump takes the error for the end of the client's stream and half-closes the upstreams
-	c09R6(c, r, "C03.R21") // every datagram relayed is the one the client sent: the record queued for a client owns the buffer its datagram was received into (not one the reader goes on receiving into)
+	c01R2(c, r, "C03.R22")                // "from its first unconsumed byte": leaving matching mode puts the cursor back where matching began, not at the head of the buffer (bytes an earlier handler consumed would be relayed again)
+	c09R6(c, r, "C03.R21")                // every datagram relayed is the one the client sent: the record queued for a client owns the buffer its datagram was received into (not one the reader goes on receiving into)
 	c08R6(c, r, "C03.R16")                // the relay starts with the client's own bytes: a new connection's matching buffer is proven empty (server and listener wrapper alike)
 	c11PeerKey(c, r, "C03.R13")           // each upstream of the group is its own backend: two dial addresses never collapse into one peer
 	c05R23(c, r, "C03.R12")               // the relay runs without the matching deadline: a deadline left armed on the client socket cuts the client->upstream direction when it passes
